@@ -216,7 +216,7 @@ pub fn load_known() -> Vec<Known> {
 /// Counters that must be non-zero in every run of a check (quick and thorough).
 pub fn required_counters(id: &str) -> &'static [&'static str] {
     match id {
-        "C01" => &["rotations", "reads_checked", "returned_segments_checked", "files_compared_bytewise"],
+        "C01" => &["rotations", "reads_checked", "returned_segments_checked", "files_compared_bytewise", "walk:appended_entries_read_back"],
         "C02" => &["restarts", "restarts_at_the_end_of_the_history", "rejected_calls", "writes_that_hit_an_injected_chunk_creation_failure", "full_queue_rounds", "walk:restarts_compared"],
         "C03" | "C05" => &[
             "distinct_images_opened_by_real_recovery",
@@ -235,7 +235,7 @@ pub fn required_counters(id: &str) -> &'static [&'static str] {
             "real_sigkill_recoveries_matching_a_prefix",
             "full_queue_rounds",
         ],
-        "C04" => &["acks_ok_checked_against_shadow_fs", "acks_ok_spanning_several_chunk_files", "acks_err", "faults_injected", "full_queue_rounds", "shutdown_cases(flush_with_callback_then_drop)", "flushes_of_several_MiB_checked"],
+        "C04" => &["acks_ok_checked_against_shadow_fs", "acks_ok_spanning_several_chunk_files", "acks_err", "faults_injected", "full_queue_rounds", "shutdown_cases(flush_with_callback_then_drop)", "flushes_of_several_MiB_checked", "callbacks_received_over_a_shared_bounded_channel"],
         "C06" => &["rejected_calls", "restarts_at_the_end_of_the_history", "partial_order_vote:incomparable_votes_tried", "walk:refused_calls_compared"],
         "C07" => &["cache_misses_served_from_disk", "concurrent_reader_results_checked", "eviction_boundary_checks_after_sync", "held_snapshots_iterated_later", "reads_after_crash_restart", "full_queue_rounds", "large_record_rounds"],
         "C08" => &["unlinks_checked", "end_state_checks", "faults_injected", "unlinks_in_histories_with_an_earlier_failed_sync", "deleted_chunks_that_contained_a_purge_record"],
@@ -243,8 +243,8 @@ pub fn required_counters(id: &str) -> &'static [&'static str] {
         "C10" => &["cut_positions", "zero_tail_images", "cases_with_truncation_disabled", "continuations(5_writes+flush+restart)", "cuts_also_recovered_under_much_smaller_chunk_limits", "zero_tail_images_under_a_vote_type_with_its_own_validity_check"],
         "C11" => &["files_compared_bytewise", "returned_segments_checked", "file_names_round_tripped", "rotations", "full_queue_rounds", "writes_that_hit_an_injected_chunk_creation_failure"],
         "C12" => &["decodes", "roundtrip:append", "roundtrip:state", "roundtrip:vote", "roundtrip:commit", "roundtrip:purge", "roundtrip:truncate", "mutation:truncate", "mutation:subst:len_prefix", "encodes_after_a_failed_encode", "records_with_a_forged_checksum_value(0,1,0xFFFFFFFF,..)"],
-        "C13" => &["refusals(contention_observed)", "acquisitions_as_dump", "process_rounds", "attempts_against_a_parked_writing_owner", "chunk_file_comparisons_after_refusals", "fork_rounds(owner_dropped_while_a_forked_child_holds_its_descriptors)", "attempts_whose_flock_call_failed_with_another_errno", "other_process_rounds(refused_here_then_owner_process_exits)", "attempts_through_another_path_spelling(symlink,dot,double_slash)", "attempts_against_an_owner_whose_worker_had_ended", "reopens_while_a_snapshot_of_the_dropped_owner_was_alive"],
-        "C14" => &["new_instance_purge_flush_acked", "placement:0", "placement:1", "placement:2", "placement:3", "placement:4", "opener_parked_inside_open", "unflushed_writes_after_the_last_ack"],
+        "C13" => &["refusals(contention_observed)", "acquisitions_as_dump", "process_rounds", "attempts_against_a_parked_writing_owner", "chunk_file_comparisons_after_refusals", "fork_rounds(owner_dropped_while_a_forked_child_holds_its_descriptors)", "attempts_whose_flock_call_failed_with_another_errno", "other_process_rounds(refused_here_then_owner_process_exits)", "attempts_through_another_path_spelling(symlink,dot,double_slash)", "attempts_against_an_owner_whose_worker_had_ended", "reopens_while_a_snapshot_of_the_dropped_owner_was_alive", "empty_directory_races"],
+        "C14" => &["new_instance_purge_flush_acked", "placement:0", "placement:1", "placement:2", "placement:3", "placement:4", "opener_parked_inside_open", "unflushed_writes_after_the_last_ack", "old_instance_snapshots_dropped_under_a_new_instance"],
         "C15" => &["cache_observations", "observations_over_limit_after_append", "pinned_entries_seen_over_limit", "drain_checks", "walk:accounting_observations", "walk:appends_of_an_id_appended_before", "stat_snapshots_checked_for_internal_consistency", "accounting_observations_under_a_capacity_based_payload_size", "large_chunk_rounds"],
         "C16" => &["adversarial_calls", "concurrent_rounds(4_readers+drainer)", "walk:update_state_calls", "walk:appends_of_an_id_appended_before", "partial_order_vote:incomparable_votes_tried"],
         _ => &[],
